@@ -126,4 +126,23 @@ PROPS = {
         assumptions=["a crash leaves exactly a prefix of the datastore's commit log", "faults are injected into flush commits only (not into DeleteRange's direct writes)"],
         timeout={"quick": 600, "thorough": 3000},
     ),
+    "C15": dict(
+        props_files=["GoHeader/Props/C15.lean"], gen=[],
+        canon=lambda l: l.split(" => ")[0], nontrivial=lambda l: "requests=-" not in l,
+        rule="real Syncer.incomingNetworkHead (verif export) over a real Store holding 1..subj, a scripted trusted getter with a request log, a header type whose non-adjacent Verify succeeds up to a trust range R; "
+             "grid distance 1..24 (60 thorough) x R 0..d x {genuine, forged candidate}; a getter failure at every intermediate height for sampled (d, R); seeded random distances up to 250; "
+             "distinct = distinct (subj, new, R, forged, failing height); non-trivial = the bifurcation loop made at least one getter request",
+        trusted_base=[KERNEL, HARNESS_TB, "verifyBifurcating is hand-modelled (loop) and tied by exact comparison of verdict, getter request sequence and promoted heads on every generated case"],
+        assumptions=["the trusted getter returns the genuine chain header of the requested height or an error", "header.Verify is reduced to ok/soft/hard as proved in C01 (non-adjacent type-level failures are soft, adjacent ones hard, not-above is hard)"],
+    ),
+    "C16": dict(
+        props_files=["GoHeader/Props/C16.lean"], gen=["estimateTailHeight", "tailEstimate"],
+        canon=lambda l: re.sub(r"\b(headT|times|youngestGoneT)=\S+", "", l.split(" => ")[0]), nontrivial=lambda l: "kind=estimate" not in l or " bt=0 " not in l,
+        rule="estimateTailHeight on a (trustingPeriod, blockTime incl. 0 and negative, head height incl. 2^64-1) grid; findTailHeight and the end-to-end subjectiveTail (renewTail + moveTail on a real Store and scripted getter) "
+             "on chains even / dense / sparse (20 min spacing) / halted (3 h pause) / irregular x windows 10 s..1000 h x block times {0, 1 s, 2 s, 30 s, 10 min} x old tail {1, n/3}; "
+             "offline node (network head above local head); SyncFromHeight up and down; seeded random chains; distinct = distinct case up to absolute timestamps; non-trivial = not the blockTime-0 estimate",
+        trusted_base=[KERNEL, GOTOLEAN + " for estimateTailHeight and the straight-line part of findTailHeight (Int64/UInt64 semantics, divide-by-zero as explicit panic outcome)", HARNESS_TB,
+                      "the walk loop is hand-modelled; renewTail/moveTail are NOT modelled: their clauses (bounds, gap-free, not wedged, retention) are evaluated on the real Store by the harness only"],
+        assumptions=["timestamps and durations fit int64 nanoseconds", "SyncFromHash/SyncFromHeight name headers that exist on the network (otherwise an error is the right answer)"],
+    ),
 }
